@@ -2,6 +2,8 @@ import M3d.Basic
 import M3d.Model.FastMap
 import M3d.Model.Mesh
 import M3d.Model.MeshIter
+import M3d.Model.MeshObj
+import M3d.Model.MeshBounds
 /-! Line-protocol handler for C09 (map histories; mesh histories are added below). Core-only. -/
 namespace M3d.Drv.C09
 open M3d M3d.FastMap
@@ -205,7 +207,7 @@ def handleMesh (ws : List String) : Option String := do
   let outs ← runMeshO h tri Mesh.new Mesh.new (ws.drop (1 + nt)) []
   some (" ".intercalate outs)
 
-def handleAll (ws : List String) : Option String :=
+def handleAll0 (ws : List String) : Option String :=
   match ws with
   | "mesh" :: rest => handleMesh rest
   -- the specification of a mesh returned by one of the library's in-place editors: it answers
@@ -214,4 +216,137 @@ def handleAll (ws : List String) : Option String :=
   | ["fresh", _] => some "same-as-fresh"
   | _ => handle ws
 
+end M3d.Drv.C09
+
+/-! ### Programs over several mesh variables (derived meshes are NEW objects) -/
+namespace M3d.Drv.C09
+open M3d M3d.FastMap M3d.Mesh M3d.MeshObj M3d.MeshBounds
+
+/-- `-` (identity) or `a>b,c>d,…`: the coordinate map on key ids. -/
+def parseKeyMap (s : String) : Option (Nat → Nat) :=
+  if s = "-" then some id else do
+    let ps ← (s.splitOn ",").mapM fun e =>
+      match e.splitOn ">" with
+      | [a, b] => do some ((← a.toNat?), (← b.toNat?))
+      | _ => none
+    some fun k => match ps.find? (·.1 = k) with
+      | some (_, b) => b
+      | none => k
+
+def showP3 (p : P3 Rat) : String := s!"{showRat p.x},{showRat p.y},{showRat p.z}"
+
+/-- key token `hash;x;y;z` (hash hex, coordinates `num/den`). -/
+def parseKeyTok (s : String) : Option (Nat × P3 Rat) :=
+  match s.splitOn ";" with
+  | [hh, x, y, z] => do some ((← parseHex hh), ⟨← parseRat x, ← parseRat y, ← parseRat z⟩)
+  | _ => none
+
+def sortTris (ts : List Tri) : List Tri := sortBy triLt ts
+
+/-- The values the faces of a derived mesh must have (`dim = 2`: a segment `(a,b)` is the triple
+`(a,b,b)`). -/
+def expectDerived (dim : Nat) (method : String) (g : Nat → Nat) (tri : Nat → Tri) (src : List Nat) :
+    List Tri :=
+  if method = "InvertNormals" then
+    if dim = 2 then src.map fun f => ((tri f).2.1, (tri f).1, (tri f).1)
+    else specInvert (src.map tri)
+  else specMapped tri g src
+
+/-- The program runs in the VALUE semantics (`stepVal`): by `derived_meshes_are_new_objects` that
+is what the Go program over `*Mesh` objects computes as long as every derived mesh is a new object. -/
+partial def runObjs (dim : Nat) (h : Nat → UInt64) (tri : Nat → Tri) (coord : Nat → P3 Rat)
+    (vals : List Mesh.Mesh) :
+    List String → List String → Option (List String)
+  | [], acc => some acc.reverse
+  | "add" :: v :: f :: rest, acc => do
+      let v ← v.toNat?; let f ← f.toNat?
+      runObjs dim h tri coord (stepVal h tri vals (.add v f)) rest acc
+  | "rem" :: v :: f :: rest, acc => do
+      let v ← v.toNat?; let f ← f.toNat?
+      runObjs dim h tri coord (stepVal h tri vals (.remove v f)) rest acc
+  | "am" :: v :: w :: rest, acc => do
+      let v ← v.toNat?; let w ← w.toNat?
+      runObjs dim h tri coord (stepVal h tri vals (.addMesh v w)) rest acc
+  | "has" :: v :: f :: rest, acc => do
+      let v ← v.toNat?; let f ← f.toNat?
+      runObjs dim h tri coord vals rest (boolStr ((vals.getD v Mesh.new).contains f) :: acc)
+  | "num" :: v :: rest, acc => do
+      let v ← v.toNat?
+      runObjs dim h tri coord vals rest (toString (vals.getD v Mesh.new).num :: acc)
+  | "faces" :: v :: rest, acc => do
+      let v ← v.toNat?
+      runObjs dim h tri coord vals rest (showSet (vals.getD v Mesh.new).faces :: acc)
+  | "find1" :: v :: a :: rest, acc => do
+      let v ← v.toNat?; let a ← a.toNat?
+      let (m', r) := (vals.getD v Mesh.new).find h tri [a]
+      runObjs dim h tri coord (vals.set v m') rest (showSet r :: acc)
+  | "find2" :: v :: a :: b :: rest, acc => do
+      let v ← v.toNat?; let a ← a.toNat?; let b ← b.toNat?
+      let (m', r) := (vals.getD v Mesh.new).find h tri [a, b]
+      runObjs dim h tri coord (vals.set v m') rest (showSet r :: acc)
+  | "nbr" :: v :: f :: rest, acc => do
+      let v ← v.toNat?; let f ← f.toNat?
+      let (m', r) := if dim = 2 then (vals.getD v Mesh.new).neighbors2 h tri f
+        else (vals.getD v Mesh.new).neighbors h tri f
+      runObjs dim h tri coord (vals.set v m') rest (showSet r :: acc)
+  | "verts" :: v :: rest, acc => do
+      let v ← v.toNat?
+      let (m', r) := (vals.getD v Mesh.new).vertexSlice h tri
+      runObjs dim h tri coord (vals.set v m') rest (showSet r :: acc)
+  -- Min() / Max(): the fold over the corners of the current faces (theorem bounds_eq_fresh: the
+  -- enumeration order is irrelevant)
+  | "min" :: v :: rest, acc => do
+      let v ← v.toNat?
+      let r := meshMin ⟨0, 0, 0⟩ (cornerCoords tri coord (vals.getD v Mesh.new).faces)
+      runObjs dim h tri coord vals rest (showP3 r :: acc)
+  | "max" :: v :: rest, acc => do
+      let v ← v.toNat?
+      let r := meshMax ⟨0, 0, 0⟩ (cornerCoords tri coord (vals.getD v Mesh.new).faces)
+      runObjs dim h tri coord vals rest (showP3 r :: acc)
+  -- vars[dst] = vars[src].<method>(…): the result is a new object built from the faces `ids`
+  -- (the pointers the harness found in it), which must carry exactly the mapped values
+  | "dv" :: dst :: src :: method :: km :: ids :: rest, acc => do
+      let dst ← dst.toNat?; let src ← src.toNat?; let g ← parseKeyMap km
+      let ids ← parseNatsComma ids
+      let sf := (vals.getD src Mesh.new).faces
+      let vals' := stepVal h tri vals (.derive dst ids)
+      if method = "Copy" then
+        -- documented: "all of the triangles are the same exact pointers"
+        runObjs dim h tri coord vals' rest (showSet sf :: acc)
+      else
+        let want := expectDerived dim method g tri sf
+        let ok := ids.eraseDups.length == ids.length && sortTris (ids.map tri) == sortTris want
+        -- DeepCopy is documented to copy every triangle individually: none of the source's pointers
+        let copied := method != "DeepCopy" || ids.all fun i => !sf.contains i
+        let out := showTris want ++ (if ok then "" else "/faces-found-do-not-carry-these-values")
+          ++ (if copied then "" else "/deep-copy-shares-face-pointers-with-its-source")
+        runObjs dim h tri coord vals' rest (out :: acc)
+  | _, _ => none
+
+/-- `mesho <dim> <nkeys> <hash;x;y;z>… <ntris> <a,b,c>… <nvars> <ops>…` -/
+def handleMeshObjs (ws : List String) : Option String := do
+  let dim ← (← ws.head?).toNat?
+  let ws := ws.drop 1
+  let n ← (← ws.head?).toNat?
+  let ks ← ((ws.drop 1).take n).mapM parseKeyTok
+  if ks.length ≠ n then none
+  let h : Nat → UInt64 := fun k => ((ks.getD k (0, ⟨0, 0, 0⟩)).1).toUInt64
+  let coord : Nat → P3 Rat := fun k => (ks.getD k (0, ⟨0, 0, 0⟩)).2
+  let ws := ws.drop (1 + n)
+  let nt ← (← ws.head?).toNat?
+  let ts ← ((ws.drop 1).take nt).mapM parseTri
+  if ts.length ≠ nt then none
+  let tri : Nat → Tri := fun f => ts.getD f (0, 0, 0)
+  let ws := ws.drop (1 + nt)
+  let nv ← (← ws.head?).toNat?
+  let outs ← runObjs dim h tri coord (List.replicate nv Mesh.new) (ws.drop 1) []
+  some (" ".intercalate outs)
+
+end M3d.Drv.C09
+
+namespace M3d.Drv.C09
+def handleAll (ws : List String) : Option String :=
+  match ws with
+  | "mesho" :: rest => handleMeshObjs rest
+  | _ => handleAll0 ws
 end M3d.Drv.C09
